@@ -241,7 +241,9 @@ def history_cases(tier):
                             if isinstance(drop, tuple) and nd != 3:
                                 continue
                             # the second choice of tables has equal sizes in the legs that get fused
-                            for tabs in (TABLES[sym][:nd],) + (((TABLES[sym][4], TABLES[sym][2], TABLES[sym][0]),) if nd == 3 else ()):
+                            for ti, tabs in enumerate((TABLES[sym][:nd],) + (((TABLES[sym][4], TABLES[sym][2], TABLES[sym][0]),) if nd == 3 else ())):
+                                if tier == "quick" and ((ti == 0 and isinstance(drop, tuple)) or (ti == 1 and drop == "alternate")):
+                                    continue
                                 sp = Spec(sym, duals, charge, tabs, drop=drop, fermionic=fm, signs=(1 if fm else 0))
                                 if sp.sectors():
                                     out.append(sp)
